@@ -217,6 +217,8 @@ macro_rules! bc_harness { ($name:ident, $bits:expr, $unw:expr) => {
     }
 } }
 
+bc_harness!(verif_lag_basisconv_b4, 4, 8);
+bc_harness!(verif_lag_basisconv_b6, 6, 10);
 bc_harness!(verif_lag_basisconv_b8, 8, 12);
 bc_harness!(verif_lag_basisconv_b12, 12, 16);
 bc_harness!(verif_lag_basisconv_b16, 16, 20);
@@ -326,6 +328,8 @@ macro_rules! spec_harness { ($n128:ident, $n192:ident, $bits:expr, $unw:expr) =>
     }
 } }
 
+spec_harness!(verif_lag_spec128_b3, verif_lag_spec192_b3, 3, 11);
+spec_harness!(verif_lag_spec128_b4, verif_lag_spec192_b4, 4, 12);
 spec_harness!(verif_lag_spec128_b6, verif_lag_spec192_b6, 6, 14);
 spec_harness!(verif_lag_spec128_b10, verif_lag_spec192_b10, 10, 18);
 spec_harness!(verif_lag_spec128_b14, verif_lag_spec192_b14, 14, 22);
@@ -384,6 +388,8 @@ macro_rules! l256_harness { ($name:ident, $bits:expr, $unw:expr) => {
     }
 } }
 
+l256_harness!(verif_lag_l256_b4, 4, 10);
+l256_harness!(verif_lag_l256_b6, 6, 12);
 l256_harness!(verif_lag_l256_b8, 8, 14);
 l256_harness!(verif_lag_l256_b12, 12, 18);
 l256_harness!(verif_lag_l256_b14, 14, 20);
